@@ -107,6 +107,7 @@ type c13Layout struct {
 	ExpandCtx   []int  // context line indexes written as an identical -/+ pair
 	CollapseEq  bool   // identical adjacent -/+ pairs written once as context
 	Respace     int    // 0: as is; n>0: n blanks between every two tokens of a body line (leading indentation kept)
+	NoFinalLF   bool   // the patch file does not end in a line feed
 	DescIndent  string // white space in front of the '#' of description lines
 	SplitCommon bool   // "-foo(REST" "+bar(REST" written as "-foo(" "+bar(" " REST": the common tail becomes a context line
 }
@@ -413,7 +414,11 @@ func c13Render(changes []c13Change, layouts []c13Layout) (string, [][]string) {
 			}
 		}
 	}
-	return b.String(), descs
+	out := b.String()
+	if len(layouts) > 0 && layouts[len(layouts)-1].NoFinalLF && layouts[len(layouts)-1].Trailing == 0 {
+		out = strings.TrimSuffix(out, "\n")
+	}
+	return out, descs
 }
 
 func c13DrawLayout(rt *rapid.T, ch c13Change, idx int, ops map[string]bool) c13Layout {
@@ -504,6 +509,10 @@ func c13DrawLayout(rt *rapid.T, ch c13Change, idx int, ops map[string]bool) c13L
 	if rapid.IntRange(0, 3).Draw(rt, l("collapse")) == 0 {
 		lo.CollapseEq = true
 		ops["pair-as-context"] = true
+	}
+	if rapid.IntRange(0, 4).Draw(rt, l("noFinalLF")) == 0 {
+		lo.NoFinalLF = true
+		ops["no-final-line-feed"] = true
 	}
 	if rapid.IntRange(0, 3).Draw(rt, l("descIndent")) == 0 {
 		lo.DescIndent = rapid.SampledFrom([]string{"  ", "\t", " "}).Draw(rt, l("descIndentBy"))
@@ -629,6 +638,15 @@ var c13SeveralDots = []struct {
 		Holes: map[string]string{"name": "identifier"},
 		Body:  []c13Line{{Op: '-', Text: "func name(...) (error, ...) {"}, {Op: '+', Text: "func name(...) (..., error) {"}, {Op: ' ', Text: "  ..."}, {Op: ' ', Text: "}"}},
 		File:  "package sd\n\nfunc first(a string, b int) (error, string) {\n\treturn nil, a\n}\n\nfunc second() (error, int, bool) {\n\treturn nil, 0, false\n}\n",
+	},
+	{
+		// an elision only on the '-' side before a context line with an
+		// elision, one only on the '+' side after it; the two sides differ in
+		// length before the context line (how much depends on the name of
+		// the metavariable)
+		Holes: map[string]string{"x": "expression"},
+		Body:  []c13Line{{Op: '-', Text: "sdfoo(x, x, ...)"}, {Op: '+', Text: "sdfoo(x, 1234567)"}, {Op: ' ', Text: "sdbar(...)"}, {Op: '+', Text: "sdbaz(...)"}},
+		File:  "package sd\n\nfunc f(k int) {\n\tsdfoo(k, k, 1, 2)\n\tsdbar(9)\n}\n",
 	},
 	{
 		Holes: map[string]string{"k": "expression"},
